@@ -395,6 +395,43 @@ def rules(ctx, db):
                "init is called on the carrier inside the cell", f)
 
 
+def rule_escape(ctx, db):
+    """R9: no pointer handed to an io_uring SQE builder is the address of a stack local of the function that
+    builds the entry (the SQE outlives that frame: the kernel reads / writes the memory until the CQE)."""
+    from ..util import stack_address_roots
+    from .. import opcodes as oc
+    ctx.rule("R9", "ESCAPE", "pointers put into an SQE derive from the op (`*self`), its control block, a static or null — "
+             "never from the address of a local of the function that builds the entry")
+    n = 0
+    seen = set()
+    for imp, adt, ms in oc.op_impls(db, oc.IOUR_OP):
+        for nm in ("create_entry", "create_entry_fallback", "init"):
+            f0 = ms.get(nm)
+            if f0 is None:
+                continue
+            for f in oc.reach_fns(db, f0, depth=2):
+                if f.id in seen:
+                    continue
+                seen.add(f.id)
+                sites = [(bb, t) for bb, t in f.calls() if call_matches(t, r"^io_uring::opcode::\w+::(new|\w+)$")]
+                # stores of pointers into the control block (msghdr / iovec fields)
+                for bb, t in sites:
+                    for i, a in enumerate(t.get("args", [])):
+                        p = op_place(a)
+                        if p is None:
+                            continue
+                        ty = f.local_ty(p["l"])
+                        if not (ty.startswith("*const ") or ty.startswith("*mut ")):
+                            continue
+                        n += 1
+                        roots = stack_address_roots(f, p["l"])
+                        ctx.ob("R9", "sqe-pointer-not-stack:%s#%s.%d" % (f.name, t["fn"].rsplit("::", 2)[-2], i), not roots,
+                               "argument %d of %s is a pointer that may hold the address of the local(s) %s of this "
+                               "function; the kernel uses it after the function returned" % (
+                                   i, t["fn"], [f.local_name(l) or "_%d" % l for l, _ in roots]), f)
+    ctx.floor("R9", "pointer arguments of SQE builders", n, 20)
+
+
 def _discr_edges_of(f, cbb):
     from ..util import discr_edges
     return discr_edges(f, cbb)
@@ -412,6 +449,8 @@ def _ord(f, bb, strong):
 
 def rules_all(ctx, db):
     rules(ctx, db)
+    if has_iour(db):
+        rule_escape(ctx, db)
     if ctx.tier == "thorough" and ctx.cfg == "A":
         from .. import witness
         witness.obligations(ctx, "C01")
